@@ -64,7 +64,7 @@ class RowGate:
             f'{node}.token.hidden': 'hid',
             f'isinstance({node}.token, ComplexToken)': 'cx',
             f'{node}.token.category in {opt}.token_categories': 'cat',
-            f'0 < len({et})': 'nonempty',
+            f'nonempty({et})': 'nonempty',
         }
         self.spine_atoms = {'H', 'T', 'N', 'I'}
         self.cat_atoms = {'hid', 'cx', 'cat'}
@@ -118,7 +118,7 @@ class RowGate:
         if isinstance(a, ast.IfExp):
             fm = G._formula(a.test)
             ats = G.atoms_of(fm)
-            key = f'0 < len({self.ET})'
+            key = f'nonempty({self.ET})'
             if ats == [key]:
                 t, e = (src(a.body), src(a.orelse)) if G.evaluate(fm, {key: True}) else (src(a.orelse), src(a.body))
                 if t == self.ET and e == self.EMPTY:
@@ -187,8 +187,10 @@ def check_category_gate(ctx, rule, gate: RowGate):
             continue
         kinds = [gate.appended_kind(c) for c in apps]
         if gate.cat_ok(nv):
-            if kinds not in (['exported-or-placeholder'], ['exported']):
-                bad.add(('selected', _desc(nv, gate.cat_atoms, uv), tuple(kinds)))
+            # an empty export may (but need not) be replaced by the placeholder
+            okk = kinds in (['exported-or-placeholder'], ['exported']) or (kinds == ['placeholder'] and not nv['nonempty'])
+            if not okk:
+                bad.add(('selected', _desc(nv, gate.cat_atoms | {'nonempty'}, uv), tuple(kinds)))
         else:
             if kinds != ['placeholder']:
                 bad.add(('unselected', _desc(nv, gate.cat_atoms, uv), tuple(kinds)))
